@@ -385,8 +385,10 @@ impl<'a> Gen<'a> {
             _ => true,
         };
         if quantifiable && self.rng.chance(35, 100) {
-            let mut q = if self.cfg.big_counts && self.rng.chance(1, 10) {
-                self.rng.pick(&["{5}", "{6}", "{4,7}", "{10}", "{0,100}", "{1000}", "{5,}"]).to_string()
+            // Minima above 5 are not unrolled by the optimizer and exercise the counted-loop paths
+            // (Loop1CharBody with min > 0, EnterLoop minima); always present at low weight.
+            let mut q = if self.rng.chance(if self.cfg.big_counts { 20 } else { 7 }, 100) {
+                self.rng.pick(&["{5}", "{6}", "{4,7}", "{6,7}", "{6,8}", "{7}", "{6,}", "{10}", "{0,100}", "{8,9}", "{5,}", "{0,6}", "{1000}"]).to_string()
             } else {
                 self.rng.pick(QUANTS).to_string()
             };
@@ -537,7 +539,8 @@ pub fn alphabet_fold() -> Vec<u32> {
 
 pub fn alphabet_multibyte() -> Vec<u32> {
     let mut v: Vec<u32> = "ab1\n".chars().map(|c| c as u32).collect();
-    v.extend_from_slice(&[0x7F, 0x80, 0xE9, 0x7FF, 0x800, 0x2028, 0xFFFF, 0x10000, 0x1F600, 0x10FFFF, 0x0]);
+    // includes lone surrogates: they can only occur on the pattern side (printed as \uD800)
+    v.extend_from_slice(&[0x7F, 0x80, 0xE9, 0x7FF, 0x800, 0x2028, 0xFFFF, 0x10000, 0x1F600, 0x10FFFF, 0x0, 0xD800, 0xDFFF]);
     v
 }
 
